@@ -569,7 +569,8 @@ func (f *frame) evalClause(fc *FuncContract, c *Clause, params, results, vars []
 
 type modLoc struct {
 	param int
-	field string // "" = whole object
+	via   []string // pointer-typed fields followed from the parameter (p.a.b.f: via = [a b])
+	field string   // "" = whole object
 }
 
 func parseModifies(fc *FuncContract) ([]modLoc, error) {
@@ -582,8 +583,11 @@ func parseModifies(fc *FuncContract) ([]modLoc, error) {
 		}
 		m = strings.TrimPrefix(m, "*")
 		name, field := m, ""
+		var via []string
 		if k := strings.Index(m, "."); k >= 0 {
 			name, field = m[:k], m[k+1:]
+			parts := strings.Split(field, ".")
+			via, field = parts[:len(parts)-1], parts[len(parts)-1]
 		}
 		idx := -1
 		for i, p := range all {
@@ -594,7 +598,7 @@ func parseModifies(fc *FuncContract) ([]modLoc, error) {
 		if idx < 0 {
 			return nil, fmt.Errorf("%s:%d: modifies %q: no such parameter", fc.File, fc.Line, m)
 		}
-		out = append(out, modLoc{param: idx, field: field})
+		out = append(out, modLoc{param: idx, via: via, field: field})
 	}
 	return out, nil
 }
@@ -609,6 +613,26 @@ func (e *Engine) modKeys(callee *ssa.Function, ml modLoc) ([]string, error) {
 		return nil, fmt.Errorf("modifies: parameter %s is not a pointer", callee.Params[ml.param].Name())
 	}
 	et := pt.Elem()
+	for _, v := range ml.via {
+		st, ok := et.Underlying().(*types.Struct)
+		if !ok {
+			return nil, fmt.Errorf("modifies: %s is not a struct", et)
+		}
+		found := false
+		for i := 0; i < st.NumFields(); i++ {
+			if st.Field(i).Name() == v {
+				fp, ok := st.Field(i).Type().Underlying().(*types.Pointer)
+				if !ok {
+					return nil, fmt.Errorf("modifies: field %s is not a pointer", v)
+				}
+				et = fp.Elem()
+				found = true
+			}
+		}
+		if !found {
+			return nil, fmt.Errorf("modifies: no field %s", v)
+		}
+	}
 	if ml.field == "" {
 		return e.allKeysOf(et), nil
 	}
@@ -739,9 +763,9 @@ func (f *frame) callContract(fc *FuncContract, callee *ssa.Function, args []*Val
 		if err != nil {
 			return nil, fmt.Errorf("%s:%d: %v", fc.File, fc.Line, err)
 		}
-		ref := args[ml.param]
-		if ref.T == nil || ref.T.Sort != SRef {
-			return nil, unsupported("modifies through a symbolic (interior) pointer in call to %s", fc.Key)
+		refT, err := f.modRef(callee, ml, args[ml.param], pre)
+		if err != nil {
+			return nil, err
 		}
 		for _, k := range ks {
 			s := f.e.keySort[k]
@@ -749,7 +773,7 @@ func (f *frame) callContract(fc *FuncContract, callee *ssa.Function, args []*Val
 				return nil, unsupported("modifies: unknown sort of %s", k)
 			}
 			arr := f.get(f.st, k, s)
-			f.st.m[k] = Store(arr, ref.T, f.e.fresh("havoc!"+sanitize(k), s.Elem))
+			f.st.m[k] = Store(arr, refT, f.e.fresh("havoc!"+sanitize(k), s.Elem))
 		}
 	}
 	for _, ln := range modifiedLogs(fc) {
@@ -845,8 +869,12 @@ func (f *frame) checkFrame(params []*Val, pos token.Pos) error {
 		if params[ml.param].T == nil {
 			continue
 		}
+		refT, err := f.modRef(f.fn, ml, params[ml.param], f.oldSt)
+		if err != nil {
+			continue
+		}
 		for _, k := range ks {
-			allowed[k] = append(allowed[k], params[ml.param].T)
+			allowed[k] = append(allowed[k], refT)
 		}
 	}
 	logsOK := map[string]bool{}
@@ -1096,4 +1124,27 @@ func copyBounds(m map[string]ival) map[string]ival {
 		c[k] = v
 	}
 	return c
+}
+
+// modRef follows the `via` pointer fields of a modifies entry from the argument to the object
+// that is actually modified (evaluated in state st).
+func (f *frame) modRef(callee *ssa.Function, ml modLoc, arg *Val, st *State) (*Term, error) {
+	if arg.T == nil || arg.T.Sort != SRef {
+		return nil, unsupported("modifies through a symbolic (interior) pointer")
+	}
+	ref := arg.T
+	et := callee.Params[ml.param].Type().Underlying().(*types.Pointer).Elem()
+	for _, v := range ml.via {
+		stt := et.Underlying().(*types.Struct)
+		for i := 0; i < stt.NumFields(); i++ {
+			if stt.Field(i).Name() == v {
+				key := f.e.fieldKey(et, i)
+				arr := f.get(st, key, f.e.keySort[key])
+				ref = Select(arr, ref)
+				et = stt.Field(i).Type().Underlying().(*types.Pointer).Elem()
+				break
+			}
+		}
+	}
+	return ref, nil
 }
